@@ -8,9 +8,11 @@ import (
 	"go/token"
 	"go/types"
 	"sort"
+	"strconv"
 	"strings"
 
 	"golang.org/x/tools/go/packages"
+	"golang.org/x/tools/go/types/typeutil"
 
 	"verif/tool/goan"
 	"verif/tool/load"
@@ -60,48 +62,8 @@ func checkC07(c *Ctx) {
 
 	c.Rule("C07.R1.map-range", "every range over a map / map-ordered slice is order-insensitive, sanitised before every escape, or reviewed", 100)
 	c.Rule("C07.R1.tainted-result", "the result of a function returning a map-ordered slice is sorted before it escapes at every call site", 6)
-	classes := map[string]int{}
-	occ := map[string]int{}
-	for _, m := range oa.Ranges {
-		class, findings, notes := classifyRange(oa, m)
-		key := m.Pkg.Name + "." + m.Key()
-		occ[key]++
-		if occ[key] > 1 {
-			key = fmt.Sprintf("%s #%d", key, occ[key])
-		}
-		pos := c.posOf(m.Pkg, m.Stmt.Pos())
-		if class == "escapes" {
-			classes[class]++
-			var fs []string
-			for _, f := range findings {
-				fs = append(fs, f.text)
-			}
-			c.Bad("C07.R1.map-range", key, pos, "iteration order of the map reaches an output: "+strings.Join(fs, "; "))
-			continue
-		}
-		classes[class]++
-		c.Ok("C07.R1.map-range", key, pos, class+": "+strings.Join(notes, "; "))
-	}
-	for k, n := range classes {
-		c.Analysed("map ranges: "+k, n)
-	}
-	for _, cs := range oa.CallSites {
-		key := fmt.Sprintf("%s.%s › %s := %s(…)", cs.Pkg.Name, cs.FnName, cs.Target, cs.Callee)
-		if len(cs.Bad) == 0 {
-			c.Ok("C07.R1.tainted-result", key, c.posOf(cs.Pkg, cs.Pos), "sorted before every escape (or only ranged by order-insensitive loops)")
-			continue
-		}
-		if why, ok := c07ReviewedCallSites[cs.FnName+" › "+cs.Callee]; ok {
-			c.Ok("C07.R1.tainted-result", key, c.posOf(cs.Pkg, cs.Pos), "reviewed: "+why)
-			continue
-		}
-		if cs.OnlyReturned {
-			c.Ok("C07.R1.tainted-result", key, c.posOf(cs.Pkg, cs.Pos), "returned unsorted: this function's own summary is 'returns map-ordered', decided at its call sites")
-			continue
-		}
-		c.Bad("C07.R1.tainted-result", key, c.posOf(cs.Pkg, cs.Pos), fmt.Sprintf("%s returns a slice in map order and %s is %s without being sorted", cs.Callee, cs.Target, strings.Join(cs.Bad, ", ")))
-	}
-	checkDirectTaintedUses(c, oa, pkgs)
+	emitOrderTaint(c, oa, "C07.R1.map-range", "C07.R1.tainted-result", nil)
+	checkDirectTaintedUses(c, oa, pkgs, "C07.R1.tainted-result")
 
 	// ---- R2 ambient sources
 	checkAmbient(c, pkgs)
@@ -182,6 +144,8 @@ func checkC07(c *Ctx) {
 		}
 	}
 	checkComparators(c, pkgs)
+	checkClosureComparators(c, pkgs)
+	checkInvertedTables(c, pkgs)
 	// the spec path rendered into generated code (go:generate comment) is the user's, never the
 	// path of a temporary copy
 	for _, pk := range pkgs {
@@ -251,7 +215,59 @@ func checkC07(c *Ctx) {
 
 // checkDirectTaintedUses: calls to functions returning map-ordered slices whose result is not
 // bound to a local (used directly in a literal, argument or return).
-func checkDirectTaintedUses(c *Ctx, oa *goan.OrderAnalysis, pkgs []*packages.Package) {
+// emitOrderTaint reports the order-taint verdicts of the analysed packages (all, or those
+// selected by only) under the given rule names.
+func emitOrderTaint(c *Ctx, oa *goan.OrderAnalysis, mapRule, resultRule string, only func(*packages.Package) bool) {
+	classes := map[string]int{}
+	occ := map[string]int{}
+	for _, m := range oa.Ranges {
+		if only != nil && !only(m.Pkg) {
+			continue
+		}
+		class, findings, notes := classifyRange(oa, m)
+		key := m.Pkg.Name + "." + m.Key()
+		occ[key]++
+		if occ[key] > 1 {
+			key = fmt.Sprintf("%s #%d", key, occ[key])
+		}
+		pos := c.posOf(m.Pkg, m.Stmt.Pos())
+		if class == "escapes" {
+			classes[class]++
+			var fs []string
+			for _, f := range findings {
+				fs = append(fs, f.text)
+			}
+			c.Bad(mapRule, key, pos, "iteration order of the map reaches an output: "+strings.Join(fs, "; "))
+			continue
+		}
+		classes[class]++
+		c.Ok(mapRule, key, pos, class+": "+strings.Join(notes, "; "))
+	}
+	for k, n := range classes {
+		c.Analysed("map ranges: "+k, n)
+	}
+	for _, cs := range oa.CallSites {
+		if only != nil && !only(cs.Pkg) {
+			continue
+		}
+		key := fmt.Sprintf("%s.%s › %s := %s(…)", cs.Pkg.Name, cs.FnName, cs.Target, cs.Callee)
+		if len(cs.Bad) == 0 {
+			c.Ok(resultRule, key, c.posOf(cs.Pkg, cs.Pos), "sorted before every escape (or only ranged by order-insensitive loops)")
+			continue
+		}
+		if why, ok := c07ReviewedCallSites[cs.FnName+" › "+cs.Callee]; ok {
+			c.Ok(resultRule, key, c.posOf(cs.Pkg, cs.Pos), "reviewed: "+why)
+			continue
+		}
+		if cs.OnlyReturned {
+			c.Ok(resultRule, key, c.posOf(cs.Pkg, cs.Pos), "returned unsorted: this function's own summary is 'returns map-ordered', decided at its call sites")
+			continue
+		}
+		c.Bad(resultRule, key, c.posOf(cs.Pkg, cs.Pos), fmt.Sprintf("%s returns a slice in map order and %s is %s without being sorted", cs.Callee, cs.Target, strings.Join(cs.Bad, ", ")))
+	}
+}
+
+func checkDirectTaintedUses(c *Ctx, oa *goan.OrderAnalysis, pkgs []*packages.Package, rule string) {
 	tainted := map[string]bool{}
 	for _, n := range oa.RetTainted {
 		tainted[n] = true
@@ -295,7 +311,7 @@ func checkDirectTaintedUses(c *Ctx, oa *goan.OrderAnalysis, pkgs []*packages.Pac
 						return true
 					}
 				}
-				c.Bad("C07.R1.tainted-result", fmt.Sprintf("%s.%s › direct use of %s(…)", p.Name, load.FuncName(fd), fn.Name()), c.posOf(p, call.Pos()),
+				c.Bad(rule, fmt.Sprintf("%s.%s › direct use of %s(…)", p.Name, load.FuncName(fd), fn.Name()), c.posOf(p, call.Pos()),
 					fn.Name()+" returns a slice in map order and its result is used here without being sorted")
 				return true
 			})
@@ -619,11 +635,97 @@ var c07Comparators = map[string]struct {
 	"GenSecurityRequirements": {[]string{"Name"}, "scheme names are the keys of one requirement"},
 }
 
+// Reviewed closure comparators (sort.Slice / sort.SliceStable): what the closure must read of an
+// element so that two distinct elements never tie. "" stands for the element itself (a slice of
+// strings), a name followed by () for a method whose result renders the whole element.
+var c07ClosureComparators = map[string]struct {
+	reads []string
+	why   string
+}{
+	"generator.gatherSecuritySchemes › GenSecurityScope": {[]string{"Name"}, "scope names are the keys of the scopes map"},
+	"codescan.sortedDecls › *entityDecl":                 {[]string{"Pkg", "Ident"}, "a declaration is identified by its package path and type name"},
+	"diff.SpecAnalyser.Analyse › SpecDifference":         {[]string{"String()"}, "the differences of one endpoint are collected from several maps: only the whole rendering (location, code and wording) tells two of them apart"},
+	"diff.SpecDifferences.reportChanges › string":        {[]string{""}, "the rendered lines themselves are ordered"},
+}
+
+func checkClosureComparators(c *Ctx, pkgs []*packages.Package) {
+	rule := "C07.R1.comparators"
+	for _, pk := range pkgs {
+		for _, fd := range load.AllFuncs(pk) {
+			if fd.Body == nil {
+				continue
+			}
+			ast.Inspect(fd.Body, func(n ast.Node) bool {
+				call, ok := n.(*ast.CallExpr)
+				if !ok || len(call.Args) != 2 {
+					return true
+				}
+				fn, _ := typeutil.Callee(pk.TypesInfo, call).(*types.Func)
+				if fn == nil || fn.Pkg() == nil || fn.Pkg().Path() != "sort" || (fn.Name() != "Slice" && fn.Name() != "SliceStable") {
+					return true
+				}
+				lit, ok := ast.Unparen(call.Args[1]).(*ast.FuncLit)
+				if !ok {
+					return true
+				}
+				elem := "?"
+				if tv, ok := pk.TypesInfo.Types[call.Args[0]]; ok {
+					if sl, ok := tv.Type.Underlying().(*types.Slice); ok {
+						elem = types.TypeString(sl.Elem(), func(*types.Package) string { return "" })
+					}
+				}
+				coll := types.ExprString(call.Args[0])
+				used := map[string]bool{}
+				ast.Inspect(lit.Body, func(m ast.Node) bool {
+					switch x := m.(type) {
+					case *ast.CallExpr:
+						if se, ok := ast.Unparen(x.Fun).(*ast.SelectorExpr); ok {
+							if ix, ok := ast.Unparen(se.X).(*ast.IndexExpr); ok && types.ExprString(ix.X) == coll {
+								used[se.Sel.Name+"()"] = true
+								return false
+							}
+						}
+					case *ast.SelectorExpr:
+						if ix, ok := ast.Unparen(x.X).(*ast.IndexExpr); ok && types.ExprString(ix.X) == coll {
+							used[x.Sel.Name] = true
+							return false
+						}
+					case *ast.BinaryExpr:
+						if x.Op == token.LSS || x.Op == token.GTR {
+							lx, lok := ast.Unparen(x.X).(*ast.IndexExpr)
+							rx, rok := ast.Unparen(x.Y).(*ast.IndexExpr)
+							if lok && rok && types.ExprString(lx.X) == coll && types.ExprString(rx.X) == coll {
+								used[""] = true
+							}
+						}
+					}
+					return true
+				})
+				key := fmt.Sprintf("%s.%s › %s", pk.Name, load.FuncName(fd), elem)
+				want, ok := c07ClosureComparators[key]
+				if !ok {
+					c.Unk(rule, key, c.posOf(pk, call.Pos()), fmt.Sprintf("closure comparator reading %v is not in the reviewed table: decide what identifies an element of this slice", sortedKeys(used)))
+					return true
+				}
+				var missing []string
+				for _, f := range want.reads {
+					if !used[f] {
+						missing = append(missing, strconv.Quote(f))
+					}
+				}
+				c.Check(len(missing) == 0, rule, key, c.posOf(pk, call.Pos()), "compares "+strings.Join(want.reads, ", ")+" — "+want.why,
+					fmt.Sprintf("the comparator passed to sort.%s in %s does not read %v of the elements: two distinct elements tie and keep the order of the maps they were collected from (%s)", fn.Name(), load.FuncName(fd), missing, want.why))
+				return true
+			})
+		}
+	}
+}
+
 // checkComparators: the order-taint analysis trusts sort.Sort to make the order of a slice a
 // function of its contents; that holds only if Less never ties two distinct elements.
 func checkComparators(c *Ctx, pkgs []*packages.Package) {
 	rule := "C07.R1.comparators"
-	c.Rule(rule, "every sort.Interface comparator compares the fields that identify an element (reviewed table): ties would leave map order in the output", 12)
+	c.Rule(rule, "every sort.Interface comparator and every sort.Slice closure compares the fields that identify an element (reviewed tables): ties would leave map order in the output", 18)
 	for _, pk := range pkgs {
 		for _, fd := range load.AllFuncs(pk) {
 			if fd.Name.Name != "Less" || fd.Recv == nil || fd.Type.Params.NumFields() != 2 {
@@ -653,6 +755,85 @@ func checkComparators(c *Ctx, pkgs []*packages.Package) {
 			}
 			c.Check(len(missing) == 0, rule, key, c.posOf(pk, fd.Pos()), "compares "+strings.Join(want.fields, ", ")+" — "+want.why,
 				fmt.Sprintf("%s.Less does not compare %v: two distinct elements tie and keep the order of the map they were collected from, so generated output changes from run to run (%s)", recv, missing, want.why))
+		}
+	}
+}
+
+// checkInvertedTables: `for k, v := range T { R[v] = k }` is a keyed insertion — order
+// insensitive — only as long as no two rows of T share a value; otherwise the row that wins is
+// the one the map iteration visits last.
+func checkInvertedTables(c *Ctx, pkgs []*packages.Package) {
+	rule := "C07.R1.inverted-tables"
+	c.Rule(rule, "a table inverted by ranging over it (R[v] = k) has pairwise distinct constant values: the inverse does not depend on iteration order", 2)
+	for _, pk := range pkgs {
+		info := pk.TypesInfo
+		for _, fd := range load.AllFuncs(pk) {
+			if fd.Body == nil {
+				continue
+			}
+			ast.Inspect(fd.Body, func(n ast.Node) bool {
+				rs, ok := n.(*ast.RangeStmt)
+				if !ok || rs.Key == nil || rs.Value == nil {
+					return true
+				}
+				tid, ok := ast.Unparen(rs.X).(*ast.Ident)
+				if !ok {
+					return true
+				}
+				tv, _ := info.Uses[tid].(*types.Var)
+				if tv == nil || tv.Parent() != pk.Types.Scope() {
+					return true
+				}
+				if _, isMap := tv.Type().Underlying().(*types.Map); !isMap {
+					return true
+				}
+				kid, _ := rs.Key.(*ast.Ident)
+				vid, _ := rs.Value.(*ast.Ident)
+				if kid == nil || vid == nil {
+					return true
+				}
+				inverted := ""
+				for _, st := range rs.Body.List {
+					as, ok := st.(*ast.AssignStmt)
+					if !ok || len(as.Lhs) != 1 || len(as.Rhs) != 1 {
+						continue
+					}
+					ix, ok := ast.Unparen(as.Lhs[0]).(*ast.IndexExpr)
+					if !ok {
+						continue
+					}
+					iid, ok1 := ast.Unparen(ix.Index).(*ast.Ident)
+					rid, ok2 := ast.Unparen(as.Rhs[0]).(*ast.Ident)
+					if ok1 && ok2 && info.Uses[iid] == info.Defs[vid] && info.Uses[rid] == info.Defs[kid] {
+						inverted = types.ExprString(ix.X)
+					}
+				}
+				if inverted == "" {
+					return true
+				}
+				key := fmt.Sprintf("%s.%s › %s inverted into %s", pk.Name, load.FuncName(fd), tid.Name, inverted)
+				rows := goan.Rows(load.PkgVarValue(pk, tid.Name))
+				if len(rows) == 0 {
+					c.Unk(rule, key, c.posOf(pk, rs.Pos()), "the inverted table is not a package-level map literal: its values cannot be compared")
+					return true
+				}
+				seen := map[string]string{}
+				var dups []string
+				for _, r := range rows {
+					v := goan.ConstVal(info, r.Val)
+					if v == nil {
+						c.Unk(rule, key, c.posOf(pk, r.Val.Pos()), "row value "+types.ExprString(r.Val)+" is not a constant")
+						return true
+					}
+					if prev, dup := seen[v.ExactString()]; dup {
+						dups = append(dups, fmt.Sprintf("%s and %s both map to %s", prev, types.ExprString(r.Key), v.ExactString()))
+					}
+					seen[v.ExactString()] = types.ExprString(r.Key)
+				}
+				c.Check(len(dups) == 0, rule, key, c.posOf(pk, rs.Pos()), fmt.Sprintf("%d rows, values pairwise distinct", len(rows)),
+					fmt.Sprintf("%s is inverted into %s by ranging over it, but %s: which key the shared value decodes to depends on the map iteration order of each run", tid.Name, inverted, strings.Join(dups, "; ")))
+				return true
+			})
 		}
 	}
 }
